@@ -665,6 +665,11 @@ def det_programs(tier):
     progs.append("void fv() { }\nvoid f1() { X = fv() + 1; }\nvoid f2() { Y = fv() + 1; }\nvoid f3() { if (fv()) X = 1; }\nvoid f4() { X = fv() + 2; }\nvoid main() { f1(); f2(); f3(); f4(); }\n")
     progs.append("unsigned char a;\nvoid interrupt i1(char x) { a = x; }\nvoid interrupt i2(char y) { a = y; }\nchar interrupt i3() { return 1; }\nchar interrupt i4(char z) { return z; }\nvoid main() { }\n")
     progs.append("unsigned char a;\nvoid u1() { nofn1(); }\nvoid u2() { nofn2(); }\nvoid u3() { a = nov3; }\nvoid main() { u1(); u2(); u3(); }\n")
+    # the same macro name with different definitions in different compilations of one process
+    progs.append("#define MF(x) (x + 1)\nunsigned char a; void main() { a = MF(2); X = MF(a); }\n")
+    progs.append("#define MF(y) (y + 2)\nunsigned char a; void main() { a = MF(2); X = MF(a); }\n")
+    progs.append("#define MF(x, y) (x - y)\n#define MK 3\nunsigned char a; void main() { a = MF(9, MK); }\n#undef MF\n#define MF(p, q) (q - p)\nvoid g() { a = MF(1, MK); }\n")
+    progs.append("#define MK 4\nunsigned char a; void main() { a = MK; }\n")
     # the same text with the same header name resolved in different include directories: "regardless of what was compiled before"
     inc = '#include "cfg.h"\nunsigned char a; void main() { a = K; }\n'
     progs.append(dict(src=inc, files={"cfg.h": "#define K 10\n"}))
@@ -690,7 +695,8 @@ def c05(tier):
             for pi in order:
                 pg = progs[pi] if isinstance(progs[pi], dict) else dict(src=progs[pi])
                 cases.append(dict(pg, id="%d.%d.%d" % (r, rep, pi), cfg=dict(text=True), variants=[dict(name=" ".join(o), args=o) for o in optsets]))
-        obs = common.run_harness("compile", cases, "c05", nproc=2)
+        # deadline 0: the harness compiles in its main thread, one compilation after the other, as a build tool would
+        obs = common.run_harness("compile", cases, "c05", nproc=2, deadline_ms=0, retry_timeouts=False)
         for c, ob in zip(cases, obs):
             pi = int(c["id"].split(".")[2])
             for o in ob:
@@ -730,7 +736,7 @@ def c05(tier):
     cov = dict(evaluations=len(hist), distinct_nontrivial=len(first), rule="%d programs (k string literals in one call / initialiser list / function, 3-40 variables and functions, "
                "inline functions, interrupt handlers, locals with shadowing, macro strings, a program that draws a warning) x %d option sets; each compiled twice per process, "
                "interleaved with the others in shuffled order, in %d rounds of fresh processes; distinct = (program, options) pairs" % (len(progs), len(optsets), rounds),
-               samples=[dict(source=progs[i]) for i in (1, 7, len(progs) - 9)], compilations=len(hist), fresh_processes=rounds * 2, states=res.distinct,
+               samples=[dict(source=progs[i]) for i in (1, 7, len(progs) - 13)], compilations=len(hist), fresh_processes=rounds * 2, states=res.distinct,
                attributed_to_known_findings=verdict.known, explanation="the recorded compile history is validated by TLC against Determinism.tla")
     common.write_evidence(pid, tier, "exploration", cov, time.time() - t0, len(verdict.violations),
                           ["a hash-order leak between 2 orders escapes %d independent compilations with probability 2^-%d" % (rounds * 4, rounds * 4 - 1), "diagnostics printed to stdout are not captured"])
